@@ -57,6 +57,14 @@ def _disc():
     return DH
 
 
+def _plain(addition):
+    import utype
+    ns = {"__annotations__": {"a": int}, "a": 0, "__module__": __name__, "__qualname__": "Plain04"}
+    if addition:
+        ns["__options__"] = utype.Options(addition=True)
+    return type("Plain04", (utype.Schema,), ns)
+
+
 def _rule(ann, **constraints):
     from utype.parser.rule import Rule
     return Rule.parse_annotation(ann, constraints=constraints or None)
@@ -75,6 +83,9 @@ def _awkward():
         "contains_float_max1": lambda: Rule.annotate(list, constraints={"contains": float, "max_contains": 1}),
         "tuple_contains_decimal": lambda: Rule.annotate(tuple, constraints={"contains": __import__("decimal").Decimal, "min_contains": 1}),
         "discriminated_union": _disc,
+        # a plain data class called directly with string keys that look like names of its own machinery
+        "plain_schema": lambda: _plain(False),
+        "plain_schema_addition": lambda: _plain(True),
     }
 
 
@@ -103,7 +114,7 @@ def run_case(case):
         tspec.validate(spec)
     try:
         T = AWKWARD[spec["name"]]() if spec.get("k") == "awkward" else tspec.build(spec)
-        if spec.get("k") == "awkward" and spec["name"] == "discriminated_union" and entry == "call":
+        if spec.get("k") == "awkward" and spec["name"] in ("discriminated_union", "plain_schema", "plain_schema_addition") and entry == "call":
             fn = T.__from__       # the data class itself, not a field holding one
         else:
             fn = entries.build_entry(entry, T, opts)
@@ -240,12 +251,15 @@ def campaign(ctx):
                      {"t": "dict", "v": [[{"t": "tuple", "v": [1]}, 2]]}, {"t": "dict", "v": [["[1]", 2]]}, {"t": "set", "v": [1]}, {"t": "list", "v": [{"t": "set", "v": [1]}]}, "[[1]]", {"t": "list", "v": []},
                      {"t": "dict", "v": [["item", {"t": "dict", "v": [["kind", {"t": "list", "v": []}], ["x", 1]]}]]}, {"t": "dict", "v": [["item", {"t": "dict", "v": [["kind", {"t": "dict", "v": []}]]}]]},
                      {"t": "dict", "v": [["item", {"t": "dict", "v": [["kind", "a"], ["x", "2"]]}]]}, {"t": "dict", "v": [["item", {"t": "dict", "v": [["kind", "zz"]]}]]}, {"t": "dict", "v": [["item", 5]]},
-                     {"t": "dict", "v": [["item", {"t": "dict", "v": [["kind", {"t": "obj"}]]}]]}, {"t": "dict", "v": [["item", {"t": "dict", "v": [["kind", F("nan")]]}]]}]
+                     {"t": "dict", "v": [["item", {"t": "dict", "v": [["kind", {"t": "obj"}]]}]]}, {"t": "dict", "v": [["item", {"t": "dict", "v": [["kind", F("nan")]]}]]},
+                     {"t": "dict", "v": [["_obj_self", 1]]}, {"t": "dict", "v": [["_d", 1], ["a", "2"]]}, {"t": "dict", "v": [["_d", {"t": "dict", "v": [["a", "x"]]}]]}, {"t": "dict", "v": [["self", 1], ["cls", 2]]},
+                     {"t": "dict", "v": [["kwargs", {"t": "dict", "v": []}], ["args", {"t": "list", "v": []}]]}, {"t": "dict", "v": [["__class__", 1], ["__dict__", {"t": "dict", "v": []}]]},
+                     {"t": "dict", "v": [["a", 1], ["__options__", 3], ["__context__", None]]}, {"t": "dict", "v": [["", 1], ["a b", 2], ["é", 3]]}]
     for name in AWKWARD:
         for v in hostile_items:
-            if name == "discriminated_union" and not (isinstance(v, dict) and v.get("t") == "dict" and all(isinstance(k, str) for k, _ in v["v"])):
+            if name in ("discriminated_union", "plain_schema", "plain_schema_addition") and not (isinstance(v, dict) and v.get("t") == "dict" and all(isinstance(k, str) for k, _ in v["v"])):
                 continue      # the data class is called directly: string-keyed mappings only (the property's domain)
-            for entry in (("call", "schema") if name == "discriminated_union" else ("call", "schema", "param", "return")):
+            for entry in (("call", "schema") if name in ("discriminated_union", "plain_schema", "plain_schema_addition") else ("call", "schema", "param", "return")):
                 idx += 1
                 if idx % ctx.nshards != ctx.shard:
                     continue
